@@ -64,7 +64,7 @@ def _wire(sa, sb, A, B):
 def f06_idle_while_terminating():
     A, B, sa, sb = established(idle_time=5)
     # keep a transfer in flight towards A so that A cannot close on terminate
-    A._rx_tmp = object()
+    A._rx_setup(99, None)   # (a real receive item: close() reports it since the close-report repair)
     A.terminate(0)
     GLib.ERRORS.clear()
     GLib.fire_timeouts()
